@@ -61,7 +61,7 @@ def gen_cases(seed, tier):
         nblocks = 1 if kind != 'chirp' else int(rng.integers(1, 3))
         cfg = work_raw.gen_config(rng, tier, i=i, P=P, M=M, nchan=nchan, start_chan=sc, mult=mult, nblocks=nblocks, asc=asc, tones=[],
                                   bits=8, dig_bits=8, digitize=bool(rng.integers(2)), nsub=int(rng.integers(1, 5)), bpf=4,
-                                  noise_std=1.0, bg_noise_std=0.0, period_dig=1, period_rq=1, N_dig=10000, N_rq=10000,
+                                  noise_std=1.0, bg_noise_std=0.0, dc=0.0, vscale=1.0, period_dig=1, period_rq=1, N_dig=10000, N_rq=10000,
                                   sample_rate=float(common.pick(rng, [3e9, 2.4e9, 1e6, 48000.0])),
                                   fch1=float(common.pick(rng, [0.0, 1e9, 6e9, 8.4213e9])))
         if hires:
